@@ -68,6 +68,10 @@ var Pool = []string{
 	"8/8/8/3k4/8/2K2p2/4N3/8 w - - 0 1",
 	"8/8/8/3k4/1p6/2K5/8/8 w - - 0 1", // capture leaves K v K
 	"8/5P2/8/3k4/8/2K5/8/8 w - - 0 1", // under-promotion leaves K+minor v K
+	"3r4/4P3/8/3k4/8/2K5/8/8 w - - 0 1", // a CAPTURING under-promotion leaves K+minor v K
+	"8/8/2k5/8/3K4/8/4p3/3R4 b - - 0 1",  // the same for Black
+	"3b4/4P2k/8/8/8/8/8/2K2B2 w - - 0 1", // exd8=B leaves two bishops: d8 dark, f1 light -> not insufficient
+	"3b4/4P2k/8/8/8/8/8/2K1B3 w - - 0 1", // exd8=B with the other bishop on e1 (dark): same colour -> insufficient
 	"8/8/8/8/8/5k2/5p2/5K2 w - - 0 1",
 	"8/8/1KB5/8/8/N7/8/k7 w - - 0 1",
 	"4k3/8/8/8/8/8/4P3/4K3 w - - 0 1",
